@@ -632,6 +632,27 @@ def canon(call, r):
     raise ValueError(call)
 
 
+def scribble(call, raw):
+    """in-place edit of everything a generator handed out (the caller owns its results): a later generation on
+    the same Hamiltonian must not see it"""
+    try:
+        if call == "as_pauli_operator":
+            for w in raw.pstrings:
+                w.weight += 1
+                w.paulis.z[...] = 1 - w.paulis.z
+        elif call == "as_field_operator":
+            for tm in raw.terms:
+                if isinstance(tm.coeffs, np.ndarray) and tm.coeffs.flags.writeable:
+                    tm.coeffs[...] = tm.coeffs + 1
+        elif call == "as_matrix":
+            if sparse.issparse(raw):
+                raw.data[...] = raw.data + 1
+            elif isinstance(raw, np.ndarray) and raw.flags.writeable:
+                raw[...] = raw + 1
+    except (AttributeError, TypeError, ValueError):
+        pass
+
+
 def same_result(call, a, b):
     if call == "as_matrix":
         return a.shape == b.shape and maxdiff(a, b) == 0
@@ -729,9 +750,12 @@ def run_history(hist, nmax=8, collect=None, nmat_spin=4, nmat_fermi=5):
         seen = {}
         for c, call in enumerate(calls):
             try:
-                r = canon(call, getattr(H, call)())
+                raw = getattr(H, call)()
+                r = canon(call, raw)
             except NotImplementedError:
                 continue
+            if step.get("scribble"):
+                scribble(call, raw)
             frame(ham, k, c, "%s.%s()" % (ham, call), owned)
             if call in seen and not same_result(call, seen[call], r):
                 flag("history:%s-repeated-call-differs" % ham, k, c, show_result(call, seen[call]), show_result(call, r))
@@ -845,6 +869,8 @@ def random_step(rng, L, layered2, has_base, nonzero=False):
         st = molecular_step(rng, L, calls)
     if has_base and ham != "hubbard2" and ham != "molecular" and rng.random() < 0.4:
         st["on"] = "base"
+    if rng.random() < 0.5:
+        st["scribble"] = True       # every result is edited in place by its receiver before the next call
     return st
 
 
